@@ -7,3 +7,114 @@
 
 #![allow(clippy::unwrap_used, clippy::expect_used, clippy::panic)]
 #![allow(clippy::indexing_slicing, clippy::needless_pass_by_value)]
+
+use crate::prelude::*;
+use std::collections::BTreeMap;
+
+// ---------------------------------------------------------------------------------------------
+// repl::ruv — range comparison (plain-data mirror of the crate-private RangeDiffStatus)
+
+pub use crate::repl::proto::ReplCidRange;
+
+#[derive(Debug, PartialEq, Eq)]
+pub enum VerifRangeDiff {
+    Ok(BTreeMap<Uuid, (Duration, Duration)>),
+    Refresh(BTreeMap<Uuid, (Duration, Duration)>),
+    Unwilling(BTreeMap<Uuid, (Duration, Duration)>),
+    Critical(
+        BTreeMap<Uuid, (Duration, Duration)>,
+        BTreeMap<Uuid, (Duration, Duration)>,
+    ),
+    NoRuvOverlap,
+}
+
+pub fn range_diff(
+    consumer: &BTreeMap<Uuid, ReplCidRange>,
+    supplier: &BTreeMap<Uuid, ReplCidRange>,
+) -> VerifRangeDiff {
+    use crate::repl::ruv::{RangeDiffStatus, ReplicationUpdateVector};
+    fn plain(m: BTreeMap<Uuid, ReplCidRange>) -> BTreeMap<Uuid, (Duration, Duration)> {
+        m.into_iter()
+            .map(|(k, v)| (k, (v.ts_min, v.ts_max)))
+            .collect()
+    }
+    match ReplicationUpdateVector::range_diff(consumer, supplier) {
+        RangeDiffStatus::Ok(m) => VerifRangeDiff::Ok(plain(m)),
+        RangeDiffStatus::Refresh { lag_range } => VerifRangeDiff::Refresh(plain(lag_range)),
+        RangeDiffStatus::Unwilling { adv_range } => VerifRangeDiff::Unwilling(plain(adv_range)),
+        RangeDiffStatus::Critical {
+            lag_range,
+            adv_range,
+        } => VerifRangeDiff::Critical(plain(lag_range), plain(adv_range)),
+        RangeDiffStatus::NoRUVOverlap => VerifRangeDiff::NoRuvOverlap,
+    }
+}
+
+// ---------------------------------------------------------------------------------------------
+// plugins::gidnumber — the allocation / validation kernel
+
+pub use crate::plugins::gidnumber::VerifGidKernel;
+
+// ---------------------------------------------------------------------------------------------
+// idm::accountpolicy — the policy fold
+
+pub use crate::value::CredentialType;
+pub use webauthn_rs::prelude::AttestationCaList;
+
+#[derive(Clone, Debug)]
+pub struct VerifPolicy {
+    pub privilege_expiry: u32,
+    pub authsession_expiry: u32,
+    pub pw_min_length: u32,
+    pub credential_policy: CredentialType,
+    pub webauthn_att_ca_list: Option<AttestationCaList>,
+    pub limit_search_max_filter_test: Option<u64>,
+    pub limit_search_max_results: Option<u64>,
+    pub allow_primary_cred_fallback: Option<bool>,
+}
+
+#[derive(Clone, Debug)]
+pub struct VerifResolvedPolicy {
+    pub privilege_expiry: u32,
+    pub authsession_expiry: u32,
+    pub pw_min_length: u32,
+    pub pw_max_length: u32,
+    pub credential_policy: CredentialType,
+    pub webauthn_att_ca_list: Option<AttestationCaList>,
+    pub limit_search_max_filter_test: Option<u64>,
+    pub limit_search_max_results: Option<u64>,
+    pub allow_primary_cred_fallback: Option<bool>,
+}
+
+pub fn fold_policies(policies: Vec<VerifPolicy>) -> VerifResolvedPolicy {
+    crate::idm::accountpolicy::verif_fold(policies)
+}
+
+// ---------------------------------------------------------------------------------------------
+// credential::softlock
+
+pub use crate::credential::softlock::CredSoftLockPolicy;
+
+#[derive(Clone, Debug)]
+pub struct VerifSoftLock(crate::credential::softlock::CredSoftLock);
+
+/// (state tag 0=Init 1=Locked 2=Unlocked, count, reset_at, unlock_at, last_expire_at)
+pub type VerifSoftLockCanon = (u8, usize, Duration, Duration, Duration);
+
+impl VerifSoftLock {
+    pub fn new(policy: CredSoftLockPolicy) -> Self {
+        VerifSoftLock(crate::credential::softlock::CredSoftLock::new(policy))
+    }
+    pub fn apply_time_step(&mut self, ct: Duration, expire_at: Option<Duration>) {
+        self.0.apply_time_step(ct, expire_at)
+    }
+    pub fn is_valid(&self) -> bool {
+        self.0.is_valid()
+    }
+    pub fn record_failure(&mut self, ct: Duration) {
+        self.0.record_failure(ct)
+    }
+    pub fn canon(&self) -> VerifSoftLockCanon {
+        self.0.verif_canon()
+    }
+}
